@@ -300,10 +300,16 @@ uint64_t cmb_timeseries_copy(struct cmb_timeseries *tgt,
         tgt->ta = NULL;
     }
 
+    /*
+     * Allocate the full capacity cursize, as cmb_dataset_copy does for xa, not
+     * just count: a later cmb_timeseries_add() to the copy writes ta[count] and
+     * wa[count] without expanding as long as count < cursize.
+     */
     const uint64_t csz = dsp_src->count;
+    const uint64_t asz = dsp_src->cursize;
     if (src->ta != NULL) {
-        cmb_assert_debug(csz > 0u);
-        tgt->ta = cmi_calloc(csz, sizeof *(tgt->ta));
+        cmb_assert_debug((csz > 0u) && (csz <= asz));
+        tgt->ta = cmi_calloc(asz, sizeof *(tgt->ta));
         cmi_memcpy(tgt->ta, src->ta, csz * sizeof *(tgt->ta));
     }
 
@@ -313,8 +319,8 @@ uint64_t cmb_timeseries_copy(struct cmb_timeseries *tgt,
     }
 
     if (src->wa != NULL) {
-        cmb_assert_debug(csz > 0u);
-        tgt->wa = cmi_calloc(csz, sizeof *(tgt->wa));
+        cmb_assert_debug((csz > 0u) && (csz <= asz));
+        tgt->wa = cmi_calloc(asz, sizeof *(tgt->wa));
         cmi_memcpy(tgt->wa, src->wa, csz * sizeof *(tgt->wa));
     }
 
